@@ -20,6 +20,7 @@ import CijProofs.Lemmas.TasksSource
 import CijProofs.Lemmas.Isotropic
 import CijProofs.Lemmas.Permutation
 import CijProofs.Lemmas.Degenerate
+import CijProofs.Lemmas.DegenerateBasis
 import Mathlib.Analysis.Real.Sqrt
 
 namespace Cij.C04
@@ -322,9 +323,18 @@ theorem c04_isotropic_adiabatic [CharZero R] (isZero : R → Bool) (hz : ZeroSpe
     up to sign); that uniqueness is NOT proved here, it is the hypothesis `EigEquivariant`.
   * `c04_degenerate_zero` — c14, c25, c36 have the double eigenvalue 1.  With a basis of the eigenspace that contains the
     coordinate axis (what LAPACK returns, measured by the harness) the component is exactly 0 for every strain field.
-    For an arbitrary basis inside the eigenspace the value depends on the basis; that case is the named GAP, covered
-    only by the correspondence run and the permutation oracle on the real code.
-  * `c04_axis_permutation` — both together: all 21 keys.
+    For an arbitrary basis inside the eigenspace the value DEPENDS on the basis — now decided, not a gap of the proof:
+    `c04_degenerate_value` gives the value for EVERY decomposition that meets the eigen contract (ascending spectrum), as an
+    explicit function of one number `c = T[p,1]²` (the squared component of the second eigenvector along the coordinate
+    axis); it is 0 for `c = 0` (and for `c = 1` with symmetric non-shear values) and in general not:
+    `c04_degenerate_basis_dependent` exhibits, over ℝ, two valid eigen-decompositions that differ only by a 45° rotation
+    inside the double eigenspace of c14 and give c14 = 0 and c14 = −1/128;
+    `c04_axis_permutation_fails_for_rotated_basis`: with such a basis the relabelling clause is FALSE in the model
+    (c25 of the relabelled strain = 0 ≠ c14).  The clause therefore holds for the real code only because LAPACK returns
+    the coordinate axis as one eigenvector for these three block-diagonal matrices (measured by the harness on every run;
+    re-measured with a monkey-patched `numpy.linalg.eigh`: a 45° basis moves c14 by 2.4 % of |c11| on the real classes).
+  * `c04_axis_permutation` — both together: all 21 keys; `c04_axis_permutation_contract` — the same with the frames of
+    c14, c25, c36 and their partners described by the eigen contract + "second eigenvector ⟂ axis" instead of `DegFrames`.
   Both need the non-shear values to be symmetric under exchange of the two strain components (`hsymm`; the code passes
   `(e_i, e_k)` in key order — its own `# TODO: sorted`). -/
 
@@ -360,6 +370,130 @@ theorem c04_axis_permutation [CharZero R] (isZero : R → Bool) (hz : ZeroSpec i
     obtain ⟨t', ht', hkey⟩ := permKey_deg v hv t ht
     rw [hkey, degenerate_zero hz eig base ht' (hdeg t' ht'), degenerate_zero hz eig base ht (hdeg t ht)]
   · exact Or.inl (heq k hsimple)
+
+/-! #### the double eigenspace of c14, c25, c36: the value for an ARBITRARY orthonormal eigenbasis -/
+
+/-- **c04_degenerate_value.**  For ANY eigen-decompositions of the fictitious strains of a degenerate key `c_ppqr` (spectrum
+−1, 1, 1, ascending as `eigh` reports it) and of its pure-shear partner `c_qrqr` (−1, 0, 1) that meet the eigen contract
+`TᵀT = 1`, `TᵀeT = diag λ`, every strain field and all non-shear values, the model value of `c_ppqr` is `degValue … c …` with
+`c = T[p,1]²`:
+  `¼ [ L(a) + L(b) − L(m) − L(e_p) − 2 O(m,a) − 2 O(m,b) + 2 O(a,b) + 2 O(m,m) ]`,
+`m = (e_q+e_r)/2`, `a = c·e_p + (1−c)·m`, `b = (1−c)·e_p + c·m` (all normalised by `Σe`; `L`, `O` = longitudinal /
+off-diagonal phonon values as functions of the strain fractions).  The basis inside the double eigenspace enters through `c`
+and nothing else; every `c ∈ [0, 1]` occurs. -/
+theorem c04_degenerate_value [CharZero R] (isZero : R → Bool) (hz : ZeroSpec isZero) (eig : Eig R) (base : Params R → R)
+    (t : Fin 3 × Fin 3 × Fin 3) (ht : t ∈ degTriples)
+    (hD : Contract (eig (degKey t)).1 (eig (degKey t)).2 (fictitiousStrain (degKey t)))
+    (hlD : (eig (degKey t)).2 0 = -1 ∧ (eig (degKey t)).2 1 = 1 ∧ (eig (degKey t)).2 2 = 1)
+    (hS : Contract (eig (degShear t)).1 (eig (degShear t)).2 (fictitiousStrain (degShear t)))
+    (hlS : (eig (degShear t)).2 0 = -1 ∧ (eig (degShear t)).2 1 = 0 ∧ (eig (degShear t)).2 2 = 1) (s : SField R) :
+    spec isZero eig base 2 (create s (degKey t)) =
+      degValue base t ((eig (degKey t)).1 t.1 1 * (eig (degKey t)).1 t.1 1) s :=
+  degenerate_value hz eig base ht (DegFramesC.of_contract ht hD hlD hS hlS) s
+
+/-- … in particular 0 as soon as the second eigenvector is orthogonal to the coordinate axis `p` (then the third one IS ± the
+axis — what LAPACK returns): `c04_degenerate_zero` with the frames described by the contract alone -/
+theorem c04_degenerate_zero_contract [CharZero R] (isZero : R → Bool) (hz : ZeroSpec isZero) (eig : Eig R)
+    (base : Params R → R) (t : Fin 3 × Fin 3 × Fin 3) (ht : t ∈ degTriples)
+    (hD : Contract (eig (degKey t)).1 (eig (degKey t)).2 (fictitiousStrain (degKey t)))
+    (hlD : (eig (degKey t)).2 0 = -1 ∧ (eig (degKey t)).2 1 = 1 ∧ (eig (degKey t)).2 2 = 1)
+    (hS : Contract (eig (degShear t)).1 (eig (degShear t)).2 (fictitiousStrain (degShear t)))
+    (hlS : (eig (degShear t)).2 0 = -1 ∧ (eig (degShear t)).2 1 = 0 ∧ (eig (degShear t)).2 2 = 1)
+    (hax : (eig (degKey t)).1 t.1 1 = 0) (s : SField R) :
+    spec isZero eig base 2 (create s (degKey t)) = 0 := by
+  rw [c04_degenerate_value isZero hz eig base t ht hD hlD hS hlS s, hax, mul_zero, degValue_zero]
+
+/-- all 21 keys, the frames of c14, c25, c36 and of their partners c44, c55, c66 described by the eigen contract -/
+theorem c04_axis_permutation_contract [CharZero R] (isZero : R → Bool) (hz : ZeroSpec isZero) (eig : Eig R)
+    (base : Params R → R) (hsymm : ∀ ct a b, base (.nonshear ct a b) = base (.nonshear ct b a))
+    (v : Fin 3 × Fin 3 × Fin 3) (hv : v ∈ permTriples) (heq : ∀ k ∈ simpleShearKeys, EigEquivariant eig v k)
+    (hdeg : ∀ t ∈ degTriples,
+      Contract (eig (degKey t)).1 (eig (degKey t)).2 (fictitiousStrain (degKey t)) ∧
+      ((eig (degKey t)).2 0 = -1 ∧ (eig (degKey t)).2 1 = 1 ∧ (eig (degKey t)).2 2 = 1) ∧
+      Contract (eig (degShear t)).1 (eig (degShear t)).2 (fictitiousStrain (degShear t)) ∧
+      ((eig (degShear t)).2 0 = -1 ∧ (eig (degShear t)).2 1 = 0 ∧ (eig (degShear t)).2 2 = 1) ∧
+      (eig (degKey t)).1 t.1 1 = 0)
+    (s : SField R) (k : Modulus) (hk : k ∈ allKeys) :
+    spec isZero eig base 2 (create (permField v s) (permKey v k)) = spec isZero eig base 2 (create s k) := by
+  refine c04_axis_permutation isZero hz eig base hsymm v hv heq (fun t ht => ?_) s k hk
+  obtain ⟨hD, hlD, hS, hlS, hax⟩ := hdeg t ht
+  have := DegFramesC.of_contract ht hD hlD hS hlS
+  rw [hax, mul_zero] at this
+  exact this.toDegFrames
+
+/-- **c04_degenerate_basis_dependent** — the value of c14 DOES depend on the basis chosen inside the double eigenspace.
+`eig` is any family of decompositions that meets the contract at c14 (with the coordinate axis as third eigenvector, as
+LAPACK returns it) and at c44; `eig'` differs from it ONLY in the frame of c14, which is rotated by 45° inside the double
+eigenspace (`T45`: columns `(0, −h, h)`, `(h, ½, ½)`, `(−h, ½, ½)`, `h = √2/2`).  `eig'` meets the same contract with the
+same eigenvalues, and yet for the symmetric non-shear values `base0` (longitudinal = product of the two strain fractions,
+off-diagonal = 0) and the strain (2, 1, 1) the model gives c14 = 0 with `eig` and c14 = −1/128 with `eig'`.  (Over ℚ there is
+no orthonormal eigenbasis at all — the eigenvector of −1 is `(0, 1, −1)/√2` — hence ℝ and not a kernel evaluation.) -/
+theorem c04_degenerate_basis_dependent (isZero : ℝ → Bool) (hz : ZeroSpec isZero) (eig : Eig ℝ)
+    (hD : Contract (eig (degKey (0, 1, 2))).1 (eig (degKey (0, 1, 2))).2 (fictitiousStrain (degKey (0, 1, 2))))
+    (hlD : (eig (degKey (0, 1, 2))).2 0 = -1 ∧ (eig (degKey (0, 1, 2))).2 1 = 1 ∧ (eig (degKey (0, 1, 2))).2 2 = 1)
+    (hax : (eig (degKey (0, 1, 2))).1 0 1 = 0)
+    (hS : Contract (eig (degShear (0, 1, 2))).1 (eig (degShear (0, 1, 2))).2 (fictitiousStrain (degShear (0, 1, 2))))
+    (hlS : (eig (degShear (0, 1, 2))).2 0 = -1 ∧ (eig (degShear (0, 1, 2))).2 1 = 0 ∧ (eig (degShear (0, 1, 2))).2 2 = 1) :
+    let eig' : Eig ℝ := Function.update eig (degKey (0, 1, 2)) (T45, lamDeg)
+    Contract (eig' (degKey (0, 1, 2))).1 (eig' (degKey (0, 1, 2))).2 (fictitiousStrain (degKey (0, 1, 2))) ∧
+    (eig' (degKey (0, 1, 2))).2 = (eig (degKey (0, 1, 2))).2 ∧ (∀ k, k ≠ degKey (0, 1, 2) → eig' k = eig k) ∧
+    spec isZero eig base0 2 (create s0 (degKey (0, 1, 2))) = 0 ∧
+    spec isZero eig' base0 2 (create s0 (degKey (0, 1, 2))) = -1 / 128 := by
+  intro eig'
+  have hne : degShear (0, 1, 2) ≠ degKey (0, 1, 2) := by decide +kernel
+  have h14 : eig' (degKey (0, 1, 2)) = (T45, lamDeg) := Function.update_self ..
+  have h44 : eig' (degShear (0, 1, 2)) = eig (degShear (0, 1, 2)) := Function.update_of_ne hne ..
+  refine ⟨by rw [h14]; exact T45_contract, ?_, fun k hk => Function.update_of_ne hk .., ?_, ?_⟩
+  · rw [h14]
+    funext a
+    fin_cases a
+    · exact hlD.1.symm
+    · exact hlD.2.1.symm
+    · exact hlD.2.2.symm
+  · exact c04_degenerate_zero_contract isZero hz eig base0 (0, 1, 2) (by decide) hD hlD hS hlS hax s0
+  · rw [c04_degenerate_value isZero hz eig' base0 (0, 1, 2) (by decide) (by rw [h14]; exact T45_contract)
+      (by rw [h14]; exact ⟨rfl, rfl, rfl⟩) (by rw [h44]; exact hS) (by rw [h44]; exact hlS) s0, h14]
+    have hc : T45 (0, 1, 2).1 1 * T45 (0, 1, 2).1 1 = 1 / 2 := by simp [T45, h2_sq]
+    rw [hc]
+    exact degValue_base0_half
+
+/-- **c04_axis_permutation_fails_for_rotated_basis** — with such a basis the relabelling clause is false in the model.
+`eig'` as above (only the frame of c14 rotated inside its double eigenspace; contract and eigenvalues unchanged), the frames
+of c25 and c55 as LAPACK returns them (`DegFrames eig (1, 0, 2)`), `base0` symmetric: exchanging the axes 1 ↔ 2 maps c14 to
+c25 and the strain (2, 1, 1) to (1, 2, 1), but c25 of the relabelled strain is 0 while c14 of the original one is −1/128. -/
+theorem c04_axis_permutation_fails_for_rotated_basis (isZero : ℝ → Bool) (hz : ZeroSpec isZero) (eig : Eig ℝ)
+    (hD : Contract (eig (degKey (0, 1, 2))).1 (eig (degKey (0, 1, 2))).2 (fictitiousStrain (degKey (0, 1, 2))))
+    (hlD : (eig (degKey (0, 1, 2))).2 0 = -1 ∧ (eig (degKey (0, 1, 2))).2 1 = 1 ∧ (eig (degKey (0, 1, 2))).2 2 = 1)
+    (hax : (eig (degKey (0, 1, 2))).1 0 1 = 0)
+    (hS : Contract (eig (degShear (0, 1, 2))).1 (eig (degShear (0, 1, 2))).2 (fictitiousStrain (degShear (0, 1, 2))))
+    (hlS : (eig (degShear (0, 1, 2))).2 0 = -1 ∧ (eig (degShear (0, 1, 2))).2 1 = 0 ∧ (eig (degShear (0, 1, 2))).2 2 = 1)
+    (h25 : DegFrames eig (1, 0, 2)) :
+    let eig' : Eig ℝ := Function.update eig (degKey (0, 1, 2)) (T45, lamDeg)
+    (∀ ct a b, base0 (.nonshear ct a b) = base0 (.nonshear ct b a)) ∧
+    permKey (1, 0, 2) (degKey (0, 1, 2)) = degKey (1, 0, 2) ∧
+    spec isZero eig' base0 2 (create (permField (1, 0, 2) s0) (permKey (1, 0, 2) (degKey (0, 1, 2)))) = 0 ∧
+    spec isZero eig' base0 2 (create s0 (degKey (0, 1, 2))) = -1 / 128 ∧
+    spec isZero eig' base0 2 (create (permField (1, 0, 2) s0) (permKey (1, 0, 2) (degKey (0, 1, 2)))) ≠
+      spec isZero eig' base0 2 (create s0 (degKey (0, 1, 2))) := by
+  intro eig'
+  have hkey : permKey (1, 0, 2) (degKey (0, 1, 2)) = degKey (1, 0, 2) := by decide +kernel
+  have hne1 : degKey (1, 0, 2) ≠ degKey (0, 1, 2) := by decide +kernel
+  have hne2 : degShear (1, 0, 2) ≠ degKey (0, 1, 2) := by decide +kernel
+  have e1 : eig' (degKey (1, 0, 2)) = eig (degKey (1, 0, 2)) := Function.update_of_ne hne1 ..
+  have e2 : eig' (degShear (1, 0, 2)) = eig (degShear (1, 0, 2)) := Function.update_of_ne hne2 ..
+  have h25' : DegFrames eig' (1, 0, 2) := by
+    constructor
+    · rw [e1]; exact h25.lamD
+    · rw [e1]; exact h25.rotD
+    · rw [e2]; exact h25.lamS
+    · rw [e2]; exact h25.rotS
+  have hzero : spec isZero eig' base0 2 (create (permField (1, 0, 2) s0) (permKey (1, 0, 2) (degKey (0, 1, 2)))) = 0 := by
+    rw [hkey]
+    exact c04_degenerate_zero isZero hz eig' base0 (1, 0, 2) (by decide) h25' _
+  have hval := (c04_degenerate_basis_dependent isZero hz eig hD hlD hax hS hlS).2.2.2.2
+  refine ⟨base0_symm, hkey, hzero, hval, ?_⟩
+  rw [hzero, hval]
+  norm_num
 
 /-! #### non-vacuity -/
 
@@ -397,6 +531,37 @@ example : ∃ eig : Eig ℝ, DegFrames eig (0, 1, 2) ∧
     · intro a b
       simp only [hf]
       fin_cases a <;> fin_cases b <;> simp [sum3, T14] <;> nlinarith [hs]
+
+/-- the hypotheses of `c04_degenerate_basis_dependent` / `c04_axis_permutation_fails_for_rotated_basis` are met by the frames
+numpy returns for c14, c44, c25, c55 (`T14`, `T44`, `T25`, `T55` of Lemmas/DegenerateBasis.lean) -/
+example : ∃ eig : Eig ℝ,
+    Contract (eig (degKey (0, 1, 2))).1 (eig (degKey (0, 1, 2))).2 (fictitiousStrain (degKey (0, 1, 2))) ∧
+    ((eig (degKey (0, 1, 2))).2 0 = -1 ∧ (eig (degKey (0, 1, 2))).2 1 = 1 ∧ (eig (degKey (0, 1, 2))).2 2 = 1) ∧
+    (eig (degKey (0, 1, 2))).1 0 1 = 0 ∧
+    Contract (eig (degShear (0, 1, 2))).1 (eig (degShear (0, 1, 2))).2 (fictitiousStrain (degShear (0, 1, 2))) ∧
+    ((eig (degShear (0, 1, 2))).2 0 = -1 ∧ (eig (degShear (0, 1, 2))).2 1 = 0 ∧ (eig (degShear (0, 1, 2))).2 2 = 1) ∧
+    DegFrames eig (1, 0, 2) := by
+  have n1 : degShear (0, 1, 2) ≠ degKey (0, 1, 2) := by decide +kernel
+  have n2 : degKey (1, 0, 2) ≠ degKey (0, 1, 2) := by decide +kernel
+  have n3 : degKey (1, 0, 2) ≠ degShear (0, 1, 2) := by decide +kernel
+  have n4 : degShear (1, 0, 2) ≠ degKey (0, 1, 2) := by decide +kernel
+  have n5 : degShear (1, 0, 2) ≠ degShear (0, 1, 2) := by decide +kernel
+  have n6 : degShear (1, 0, 2) ≠ degKey (1, 0, 2) := by decide +kernel
+  let eig : Eig ℝ := fun k =>
+    if k = degKey (0, 1, 2) then (T14, lamDeg) else if k = degShear (0, 1, 2) then (T44, lamShear)
+    else if k = degKey (1, 0, 2) then (T25, lamDeg) else (T55, lamShear)
+  have h14 : eig (degKey (0, 1, 2)) = (T14, lamDeg) := by simp [eig]
+  have h44 : eig (degShear (0, 1, 2)) = (T44, lamShear) := by simp [eig, n1]
+  have h25 : eig (degKey (1, 0, 2)) = (T25, lamDeg) := by simp [eig, n2, n3]
+  have h55 : eig (degShear (1, 0, 2)) = (T55, lamShear) := by simp [eig, n4, n5, n6]
+  refine ⟨eig, by rw [h14]; exact T14_contract, by rw [h14]; exact ⟨rfl, rfl, rfl⟩, by rw [h14]; simp [T14],
+    by rw [h44]; exact T44_contract, by rw [h44]; exact ⟨rfl, rfl, rfl⟩, ?_⟩
+  have hC := DegFramesC.of_contract (eig := eig) (t := (1, 0, 2)) (by decide) (by rw [h25]; exact T25_contract)
+    (by rw [h25]; exact ⟨rfl, rfl, rfl⟩) (by rw [h55]; exact T55_contract) (by rw [h55]; exact ⟨rfl, rfl, rfl⟩)
+  have hc : (eig (degKey (1, 0, 2))).1 (1, 0, 2).1 1 * (eig (degKey (1, 0, 2))).1 (1, 0, 2).1 1 = 0 := by
+    rw [h25]; simp [T25]
+  rw [hc] at hC
+  exact hC.toDegFrames
 
 /-- equivariant frames exist: exchanging axes 1 and 2 maps c44 to c55, and the frame of c55 with the first two rows
 exchanged and two eigenvectors negated (as numpy returns it) is equivariant to the frame of c44 -/
